@@ -310,3 +310,41 @@ def mixed_tight_diffuse_quartets(full=False):
         pats += [("MM|DT(d)", [M1, M2, Dd, T]), ("TD|MM(d)", [T, Dd, M1, M2]), ("DM|TM(d)", [Dd, M1, T, M2]), ("MT|MD(d)", [M1, T, M2, Dd])]
     return pats
 
+
+
+
+# ---- what a caller may do with objects the library returned: they are the caller's; later results must not depend on it ----------
+def mutate_returned_spherical_objects(lmax=4):
+    """fetch expansions / matrices from the public helpers of gbasis.spherical and modify them in place (rescale, clear); returns the
+    number of objects modified.  With fresh return values this has no effect on anything computed afterwards."""
+    from gbasis.spherical import generate_transformation, real_solid_harmonic
+    n = 0
+    for l in range(lmax + 1):
+        cart = np.array([(x, y, l - x - y) for x in range(l, -1, -1) for y in range(l - x, -1, -1)])
+        sph = tuple(["c1", "s1", "c0"] if l == 1 else [f"s{m}" for m in range(l, 0, -1)] + [f"c{m}" for m in range(l + 1)])
+        for m in range(-l, l + 1):
+            d = real_solid_harmonic(l, m)
+            for key in list(d):
+                d[key] = d[key] * 2.0
+            n += 1
+        for side in ("left", "right"):
+            t = generate_transformation(l, cart, sph, side)
+            try:
+                t *= 2.0
+                n += 1
+            except ValueError:      # a read-only result is fine too
+                pass
+    return n
+
+
+# ---- displacement vectors between two centres with special structure (components that cancel, coincide, vanish) ----------------
+DEGENERATE_DISPLACEMENTS = [(1.2, -1.2, 0.0), (0.0, 1.4, -1.4), (0.7, 0.7, -1.4), (0.9, 0.9, 0.9), (1.1, 0.0, 0.0), (0.0, 0.0, -1.3),
+                            (0.8, -0.8, 0.8), (1.0, 2.0, -3.0)]
+
+
+def degenerate_pair(rng, la, lb, d, nprim=None):
+    sa = rand_shell(rng, la, [], nprim=nprim or rng.randint(1, 2), nseg=rng.randint(1, 2), exp_lo=0.3, exp_hi=10.0)
+    sb = rand_shell(rng, lb, [], nprim=nprim or rng.randint(1, 2), nseg=rng.randint(1, 2), exp_lo=0.3, exp_hi=10.0)
+    ca = [0.0, 0.0, 0.0] if rng.random() < 0.5 else [0.5, -0.25, 1.0]
+    return sa.copy(center=ca), sb.copy(center=[a + x for a, x in zip(ca, d)])
+
